@@ -12,6 +12,22 @@ CHECKS = {
    note="Trusted: TLC, testing/synctest virtual clock, FNV signatures of test items do not collide. Bounds: 2-3 items, 2 tags+empty, cap 1-2 exhaustive; cap up to 6 on recorded histories.",
    technique="TLA+ spec + TLC exhaustive; model-path replay into pkg/replay; TLC trace validation of recorded histories",
    design="5/C06"),
+ "C01": dict(category="model_checking",
+   text="SessionStream.tla models sessions multiplexed on one TCP underlay (send mutex, multi-piece segment writes, per-direction AEAD counter, in-order hand-over, two-step Read); TLC checks PrefixOK/NoFramingLoss exhaustively. TLC-simulated application programmes are concretised (size classes incl. 1024/1025, 32764/32768/32769, 29 traffic patterns independently per side, 6 stream chunkings, 1-2+ sessions per connection) and run on real client+server muxes over an in-memory TCP network; an independent decoder follows the wire; every recorded trace is validated by TLC (ReadExact on a position-keyed keystream, TxContiguous, Decodable, Completes).",
+   note="Trusted: TLC, testing/synctest virtual time, XChaCha20-Poly1305/PBKDF2 primitives. Sizes/chunkings inside a class are sampled by VERIF_SEED; runs with TCP-fragment sleeps use the wall clock.",
+   technique="TLA+ spec + TLC exhaustive/simulation; programme replay on real muxes; TLC trace validation", design="5/C01"),
+ "C02": dict(category="model_checking",
+   text="SessionPacket.tla models one UDP session (open handshake with deferred data, window, oldest-first retransmission, cumulative ack, heartbeat, give-up) over a dropping/duplicating/reordering network; TLC checks PrefixOK, NoStall, NotAbandoned exhaustively and Progress under weak fairness with a drop budget below the transmission limit. Every fault schedule (by datagram identity) under which the model completes is replayed on real muxes in virtual time, plus named schedules and sustained random loss/dup/reorder over several MTUs, patterns and sessions; TLC validates every recorded trace.",
+   note="Trusted: TLC, synctest virtual time. Timers are abstracted in the model (a retransmission fires only when nothing in flight can answer it); congestion control abstracted to a 1-2 segment window.",
+   technique="TLA+ spec + TLC exhaustive + liveness; fault-schedule replay keyed by datagram identity; TLC trace validation", design="5/C02"),
+ "C03": dict(category="model_checking",
+   text="Close is modelled as the code's steps (CloseBegin/CloseTimeout/CloseFlush; close acted on when dispatched; Read as ReaderCheck/ReaderWait); TLC checks CloseNoTrunc on SessionPacket and SessionStream and shows the pre-fix variants violating it. Closing fault schedules from TLC, named close races (reader parked at hook read.wait, backlog of recvQueue+recvChan, lost/overtaken/echoed close requests) and random close points run on real muxes; TLC evaluates CloseNoTrunc at every Read return of every trace.",
+   note="Trusted: TLC, synctest, hook read.wait (tag verif). Three genuine defects were found and fixed (known_findings.json).",
+   technique="TLA+ spec + TLC exhaustive; gated interleaving replay; TLC trace validation", design="5/C03"),
+ "C13": dict(category="model_checking",
+   text="AckSound/AckOnWire/NoEarlyDiscard are invariants of SessionPacket.tla (TLC exhaustive). On the real code the check is observational: the simulated network logs deliveries and emissions under one lock, an independent codec decodes every datagram, and TLC evaluates AckSound, RetxSame, SeqDense and TxContiguous at every emitted datagram of every replayed fault schedule (application buffers are reused and overwritten after Write returns, as io.Copy does).",
+   note="Trusted: TLC, synctest, reference codec; deliveries are logged before the endpoint can read them and acks are computed before WriteTo, so the comparison cannot false-alarm.",
+   technique="TLA+ spec + TLC exhaustive; fault-schedule replay; TLC trace validation of wire events", design="5/C13"),
 }
 PENDING = "check not built yet in this session (planned, see DESIGN.md section 5)"
 
